@@ -611,37 +611,36 @@ theorem lzma2_decode_fuel (strict : Bool) (cap : Nat) (inp : ByteArray) (pos : N
 
 open Xz
 
-theorem recLoop_status (recs : Array (Nat × Nat)) (inp : ByteArray) :
-    ∀ (n p i p1 : Nat) (st : Status), readTail.recLoop recs inp n p i = some (p1, st) → st ≠ FE := by
+theorem recLoop_status (inp : ByteArray) :
+    ∀ (n p : Nat) (acc : Array (Nat × Nat)) (p1 : Nat) (st : Status) (parsed : Array (Nat × Nat)),
+      readTail.recLoop inp n p acc = some (p1, st, parsed) → st ≠ FE := by
   intro n
   induction n with
   | zero =>
-    intro p i p1 st h
+    intro p acc p1 st parsed h
     rw [readTail.recLoop.eq_1] at h
     simp only [Option.some.injEq, Prod.mk.injEq] at h
-    rw [← h.2]; simp
+    rw [← h.2.1]; simp
   | succ n ih =>
-    intro p i p1 st h
+    intro p acc p1 st parsed h
     rw [readTail.recLoop.eq_2] at h
     generalize readUvarint inp p inp.size = u1 at h
     cases u1 with
-    | eof _ => simp only [Option.some.injEq, Prod.mk.injEq] at h; rw [← h.2]; simp
-    | overflow => simp only [Option.some.injEq, Prod.mk.injEq] at h; rw [← h.2]; simp
+    | eof _ => simp only [Option.some.injEq, Prod.mk.injEq] at h; rw [← h.2.1]; simp
+    | overflow => simp only [Option.some.injEq, Prod.mk.injEq] at h; rw [← h.2.1]; simp
     | ok a ka =>
       simp only at h
       split at h
-      · simp only [Option.some.injEq, Prod.mk.injEq] at h; rw [← h.2]; simp
+      · simp only [Option.some.injEq, Prod.mk.injEq] at h; rw [← h.2.1]; simp
       · generalize readUvarint inp (p + ka) inp.size = u2 at h
         cases u2 with
-        | eof _ => simp only [Option.some.injEq, Prod.mk.injEq] at h; rw [← h.2]; simp
-        | overflow => simp only [Option.some.injEq, Prod.mk.injEq] at h; rw [← h.2]; simp
+        | eof _ => simp only [Option.some.injEq, Prod.mk.injEq] at h; rw [← h.2.1]; simp
+        | overflow => simp only [Option.some.injEq, Prod.mk.injEq] at h; rw [← h.2.1]; simp
         | ok b kb =>
           simp only at h
           split at h
-          · simp only [Option.some.injEq, Prod.mk.injEq] at h; rw [← h.2]; simp
-          · split at h
-            · simp only [Option.some.injEq, Prod.mk.injEq] at h; rw [← h.2]; simp
-            · exact ih _ _ _ _ h
+          · simp only [Option.some.injEq, Prod.mk.injEq] at h; rw [← h.2.1]; simp
+          · exact ih _ _ _ _ _ h
 
 /-- a literal status is not the fuel status -/
 macro "st_ne" : tactic => `(tactic| first | decide | (dsimp only; decide) | simp)
@@ -662,14 +661,14 @@ theorem readTail_status (flags : Nat) (recs : Array (Nat × Nat)) (r : RdState) 
     by_cases hc : cnt ≠ recs.size
     · rw [if_pos hc]; st_ne
     · rw [if_neg hc]
-      generalize hl : readTail.recLoop recs r.inp cnt (r.pos + 1 + k) 0 = lr
-      rcases lr with _ | ⟨p1, st⟩
+      generalize hl : readTail.recLoop r.inp cnt (r.pos + 1 + k) #[] = lr
+      rcases lr with _ | ⟨p1, st, parsed⟩
       · st_ne
-      · have hst := recLoop_status recs r.inp _ _ _ _ _ hl
+      · have hst := recLoop_status r.inp _ _ _ _ _ _ hl
         cases st with
         | eof =>
           dsimp only
-          exact ite2 (by st_ne) (ite2 (by st_ne) (ite2 (by st_ne) (ite2 (by st_ne) (ite2 (by st_ne) (ite2 (by st_ne) (ite2 (by st_ne) (ite2 (by st_ne) (ite2 (by st_ne) (ite2 (by st_ne) (ite2 (by st_ne) (by st_ne)))))))))))
+          exact ite2 (by st_ne) (ite2 (by st_ne) (ite2 (by st_ne) (ite2 (by st_ne) (ite2 (by st_ne) (ite2 (by st_ne) (ite2 (by st_ne) (ite2 (by st_ne) (ite2 (by st_ne) (ite2 (by st_ne) (ite2 (by st_ne) (ite2 (by st_ne) (by st_ne))))))))))))
         | unexpectedEOF => st_ne
         | err w => exact hst
 
